@@ -9,7 +9,19 @@ func init() { register("safeprefix", driveSafePrefix) }
 var abstractChars = map[string]string{
 	"a": "a", "b": "b", "E": "é", "e": "e", "acute": "́", "L": "ᄀ", "V": "ᅡ", "T": "ᆨ",
 	"H": "가", "Z": "‍", "M": "\U0001F3FD", "W": "\U0001F44B", "R": "\U0001F1E6", "CR": "\r", "LF": "\n",
-	"/": "/", " ": " ", "=": "=", "S": "̸", "<": "<", "cedilla": "̧", "dot": "̣",
+	"/": "/", " ": " ", "eacute": "é", "=": "=", "S": "̸", "<": "<", "cedilla": "̧", "dot": "̣",
+}
+
+// multi-letter abstract names by code point (single-letter names stand for themselves,
+// except the letters that name other code points in the safe-prefix alphabet only)
+var abstractNames = map[string]string{}
+
+func init() {
+	for n, c := range abstractChars {
+		if len([]rune(n)) > 1 {
+			abstractNames[c] = n
+		}
+	}
 }
 
 func absString(l []any) string {
